@@ -72,7 +72,7 @@ C40_OPS = ["using", "finally_action", "do_finally", "do_action", "do_observer", 
            "do_on_subscribe", "do_on_dispose", "do_on_terminate", "do_after_terminate",
            "do_action_n", "do_action_ec", "do_action_0"]
 DO_ACTION_GIVEN = {"do_action": ("next", "error", "completed"), "do_action_n": ("next",), "do_action_ec": ("error", "completed"), "do_action_0": ()}
-C40_INVS = ["Grammar", "ResourceDisposedExactlyOnce", "ResourceDisposedAtClose", "OneResourcePerSubscription",
+C40_INVS = ["OwedDespiteRaisingSubscriber", "Grammar", "ResourceDisposedExactlyOnce", "ResourceDisposedAtClose", "OneResourcePerSubscription",
             "FinallyExactlyOnce", "FinallyAfterTerminal", "Silent", "Released", "Causal", "RefOK", "DoIsTransparent", "Resub"]
 
 PLAIN = [["v0", "v1", "v2"], [10, 11, 12]]
@@ -110,6 +110,7 @@ class Run40:
         self.sched_ok: List[Optional[bool]] = [None] * self.ns
         self.src_index: List[Optional[int]] = [None] * self.ns
         self.problems: List[str] = []
+        self.sub_raised: Dict[int, Any] = {}
         self.ts = None
 
     def log(self, w, k="", v=None, e=None):
@@ -237,6 +238,12 @@ def run40(scn: Dict[str, Any], variant: Dict[str, Any], budget: float = 20.0) ->
     n = len(src) + (0 if term == "U" else 1)
     if kind == "sync":
         tmap = "sync"
+    sraise = bool(scn.get("sraise"))
+    boom = bool(variant.get("boom"))          # the source's subscribe function itself raises
+    if boom and (kind != "sync" or src or term != "E"):
+        return None
+    if variant.get("sink") == "default" and not sraise:
+        return None
     T = time_map(tmap, n + 1)
     vals = make_vals(variant["profile"], variant["k"], variant.get("salt", 0))
     run = Run40(scn, variant)
@@ -315,6 +322,8 @@ def run40(scn: Dict[str, Any], variant: Dict[str, Any], budget: float = 20.0) ->
         def sync_subscribe(observer, scheduler=None):
             rec = [run.clk(), NEVER_T]
             syncsubs.append(rec)
+            if boom:
+                raise src_err
             for t in src:
                 observer.on_next(vals[t])
             if term == "C":
@@ -400,6 +409,8 @@ def run40(scn: Dict[str, Any], variant: Dict[str, Any], budget: float = 20.0) ->
             run.ctx = s
             run.log("sink", "E", None, e)
             maybe_inside()
+            if sraise:          # the subscriber's handler raises (the default handler does exactly this)
+                raise e
 
         def on_completed():
             run.ctx = s
@@ -408,7 +419,16 @@ def run40(scn: Dict[str, Any], variant: Dict[str, Any], budget: float = 20.0) ->
 
         def subscribe(*_):
             run.ctx = s
-            holders[s]["d"] = ys.subscribe(on_next, on_error, on_completed, scheduler=ts)
+            try:
+                if variant.get("sink") == "default":     # no on_error given at all: reactivex's default handler raises
+                    holders[s]["d"] = ys.subscribe(on_next, None, on_completed, scheduler=ts)
+                else:
+                    holders[s]["d"] = ys.subscribe(on_next, on_error, on_completed, scheduler=ts)
+            except Exception as e:
+                if not sraise:
+                    raise
+                run.sub_raised[s] = e      # subscribe() itself raised: no subscription handle exists
+                return
             if holders[s].get("pending"):
                 holders[s]["d"].dispose()
             if plan and plan[0] in ("tie", "gap"):
@@ -439,10 +459,15 @@ def compare40(scn, exp, got) -> Optional[str]:
     """None when the observation equals this allowed one on the asserted projection."""
     run, T, vals = got["run"], got["T"], got["vals"]
     op, flt = scn["op"], scn["flt"]
-    if got["escaped"] is not None and flt["w"] != "after_terminate":
+    esc_ok = bool(exp.get("esc"))      # the subscriber's own handler raises: that exception is expected to travel back
+    if got["escaped"] is not None and flt["w"] != "after_terminate" and not (esc_ok and got["escaped"] is got["src_err"]):
         return f"escaped:{type(got['escaped']).__name__}"
     for s in range(scn["ns"]):
         elog, rlog = exp["log"][s], run.logs[s]
+        if run.variant.get("sink") == "default":      # no handler of ours saw the error: it is not in the real log
+            elog = [e for e in elog if not (e["w"] == "sink" and e["k"] == "E")]
+        if s in run.sub_raised and run.sub_raised[s] is not got["src_err"]:
+            return f"subscribe_raised:{type(run.sub_raised[s]).__name__}"
         plan = got["dplan"][s]
         t0 = got["start"][s]
         terminated = any(e["w"] == "sink" and e["k"] != "N" for e in elog)
@@ -492,6 +517,8 @@ def compare40(scn, exp, got) -> Optional[str]:
         # the source subscription of this subscriber
         u = exp["unsub"][s]
         idx = run.src_index[s]
+        if run.variant.get("boom") or s in run.sub_raised:
+            continue      # the source's subscription never came into existence: no interval to compare
         if u == -1:
             if idx is not None:
                 return f"source subscribed although nothing was to be subscribed:sub{s + 1}"
@@ -541,7 +568,7 @@ def judge40(scn, allowed, variant):
         reasons.append(r)
     return {"engine": "res40", "op": scn["op"], "fault": scn["flt"]["w"], "scn": scn, "expected": allowed, "observed": describe40(got),
             "reason": reasons[0], "reason_kind": reasons[0].split(":")[0], "variant": variant,
-            "subs": scn["ns"], "kind": variant["kind"]}
+            "subs": scn["ns"], "kind": variant["kind"], "subscriber_on_error_raises": bool(scn.get("sraise"))}
 
 
 def variants40(scn, tier, k):
@@ -577,6 +604,14 @@ def variants40(scn, tier, k):
         # quick tier: the two plain realisations always, the others in rotation (each scenario gets about half
         # of them; every realisation still meets thousands of scenarios)
         out = out[:2] + [v for j, v in enumerate(out[2:]) if (h + j) % 2 == 0]
+    if scn["term"] == "E" and not scn["src"]:
+        out.append(dict(base, kind="sync", tmap="sync", dmode="tie", boom=True))
+    if scn.get("sraise"):
+        out.append(dict(base, kind="sync", tmap="sync", dmode="tie", sink="default"))
+        out.append(dict(base, kind="cold", tmap="spread", dmode="tie", sink="default"))
+        out.append(dict(base, kind="sync", tmap="sync", dmode="tie"))
+        if not scn["src"]:
+            out.append(dict(base, kind="sync", tmap="sync", dmode="tie", boom=True, sink="default"))
     if scn["op"] == "using":
         # every using() scenario meets all three resource profiles; the two always-run realisations get the falsy ones
         prof = ("falsy_bool", "empty_composite", "plain")
